@@ -1,9 +1,33 @@
 mod common;
 mod stream;
+mod untrusted;
 mod aead;
 mod inchash;
 #[cfg(feature = "nightly")]
 mod prot;
+
+/// Largest single allocation request since the last reset (C04: "absurd allocation").
+pub static MAXALLOC: std::sync::atomic::AtomicUsize = std::sync::atomic::AtomicUsize::new(0);
+struct Counting;
+unsafe impl std::alloc::GlobalAlloc for Counting {
+    unsafe fn alloc(&self, l: std::alloc::Layout) -> *mut u8 {
+        MAXALLOC.fetch_max(l.size(), std::sync::atomic::Ordering::Relaxed);
+        std::alloc::System.alloc(l)
+    }
+    unsafe fn dealloc(&self, p: *mut u8, l: std::alloc::Layout) {
+        std::alloc::System.dealloc(p, l)
+    }
+    unsafe fn realloc(&self, p: *mut u8, l: std::alloc::Layout, n: usize) -> *mut u8 {
+        MAXALLOC.fetch_max(n, std::sync::atomic::Ordering::Relaxed);
+        std::alloc::System.realloc(p, l, n)
+    }
+    unsafe fn alloc_zeroed(&self, l: std::alloc::Layout) -> *mut u8 {
+        MAXALLOC.fetch_max(l.size(), std::sync::atomic::Ordering::Relaxed);
+        std::alloc::System.alloc_zeroed(l)
+    }
+}
+#[global_allocator]
+static GLOBAL: Counting = Counting;
 
 fn main() {
     let args: Vec<String> = std::env::args().skip(1).collect();
@@ -20,6 +44,9 @@ fn main() {
         "stream-tamper" => stream::cmd_tamper(rest),
         "aead-roundtrip" => aead::cmd_roundtrip(rest),
         "aead-tamper" => aead::cmd_tamper(rest),
+        "untrusted" => untrusted::cmd_untrusted(rest),
+        "untrusted-tags" => untrusted::cmd_tags(rest),
+        "untrusted-pwstr" => untrusted::cmd_pwstr(rest),
         "inc-splits" => inchash::cmd_splits(rest),
         "inc-replay" => inchash::cmd_replay(rest),
         "inc-trace" => inchash::cmd_trace(rest),
